@@ -78,6 +78,7 @@ pub const ORACLE_P: [&str; 4] = ["res", "popped", "whole", "pending"];
 // The property speaks about everything up to the first error: runs stop there.
 // ---------------------------------------------------------------------------------------
 pub fn c02(cx: &mut Ctx) {
+    edge_tails(cx, &ORACLE, "edge_tail", true);
     let n = if cx.thorough { 1500 } else { 150 };
     let o = cx.opts();
     for i in 0..n {
@@ -627,8 +628,13 @@ pub fn c12(cx: &mut Ctx) {
             cx.next_tag += 1;
             evs.push(json!({"e": "read", "kind": "eof", "fds": [cx.next_tag]}));
         }
-        let mut sc = script(51200, &["files", "files_rel", "fdleak"], 0, evs, "fds");
+        // one script in four belongs to a caller that pops only at the end (requests of several reads queue up)
+        let defer = i % 4 == 3;
+        let mut sc = if defer { script(51200, &["files_def", "popped", "fdleak"], 0, evs, "fds_defer_pop") } else { script(51200, &["files", "files_rel", "fdleak"], 0, evs, "fds") };
         sc["keep"] = json!(cx.rng.gen_bool(0.5));
+        if defer {
+            sc["defer_pop"] = json!(true);
+        }
         cx.push(sc);
     }
     // the same over a real socket pair with SCM_RIGHTS: small messages (each fits the window and
@@ -777,7 +783,51 @@ fn mutate(rng: &mut StdRng, mut b: Vec<u8>) -> Vec<u8> {
     b
 }
 
+/// Streams in which a complete element (request without body, request with body, header block) ends on or
+/// next to the last byte of a FULL receive window and is followed by each kind of next byte (CR, CRLF, LF,
+/// a letter, another request): whatever peeks at "the byte after" must stay inside the window.
+pub fn edge_tails(cx: &mut Ctx, cmp: &[&str], note: &str, stop_on_error: bool) {
+    let buf = crate::BUF;
+    let tails: [&[u8]; 8] = [b"\r", b"\r\n", b"\r\nGET / HTTP/1.1\r\n\r\n", b"\n", b"\r\r\n", b"G", b"\r\n\r\n", b"GET /n HTTP/1.0\r\n\r\n"];
+    for l in (buf - 4)..=(buf + 2) {
+        let mut heads: Vec<Vec<u8>> = vec![];
+        // request line + blank line, exactly l bytes
+        let mut r = b"GET /".to_vec();
+        r.extend(std::iter::repeat(b'a').take(l - 18));
+        r.extend(b" HTTP/1.1\r\n\r\n");
+        heads.push(r);
+        if l >= 46 {
+            // body ends at l
+            let mut r = b"PUT /".to_vec();
+            r.extend(std::iter::repeat(b'b').take(l - 43));
+            r.extend(b" HTTP/1.1\r\nContent-Length: 3\r\n\r\nxyz");
+            heads.push(r);
+            // a custom header line ends at l - 2, the blank line at l
+            let mut r = b"GET / HTTP/1.1\r\nX-Pad: ".to_vec();
+            r.extend(std::iter::repeat(b'c').take(l - 27));
+            r.extend(b"\r\n\r\n");
+            heads.push(r);
+        }
+        for h in &heads {
+            for t in tails.iter() {
+                let mut s = h.clone();
+                s.extend(*t);
+                // maximal reads (full windows), and a first read of exactly one window
+                let mut sc = script(51200, cmp, 0, vec![rd(&s)], note);
+                sc["stop_on_error"] = json!(stop_on_error);
+                cx.push(sc);
+                if s.len() > buf {
+                    let mut sc = script(51200, cmp, 0, vec![rd(&s[..buf]), rd(&s[buf..])], note);
+                    sc["stop_on_error"] = json!(stop_on_error);
+                    cx.push(sc);
+                }
+            }
+        }
+    }
+}
+
 pub fn c03(cx: &mut Ctx) {
+    edge_tails(cx, &["nopanic", "recvs", "calls"], "edge_tail", false);
     let n = if cx.thorough { 8000 } else { 800 };
     let o = cx.opts();
     for i in 0..n {
